@@ -525,6 +525,14 @@ class FlattenUpTo(Contract):
                 ('pending-step', z3.Implies(z3.And(0 <= p, p < n), self.pending(p + 1) == self.pending(p) - 1 + v.A(k)), 'instance'),
                 ('total-leaves', v.NL(n - 1) == v.PL(n))]
 
+    def on_python_result(self, eng, st, f, args, r, n):
+        if 'reg_flatten_func' in f.ref.sexpr() and st.scope.lookup('it') is not None:
+            # C14 / C07: a treespec keeps using the registration it recorded - not whatever the registry holds now
+            v = self.views['this']
+            k = v.v.len - st.get('it').pos           # inside a node case the iterator has already been advanced
+            eng.oblige(st, 'III', 'custom-node-is-flattened-with-the-flatten-function-recorded-in-the-treespec',
+                       f.ref == z3.Function('reg_flatten_func', Ref, Ref)(v.C(k)), n.get('line'))
+
     def matched(self, cx):
         """After a completed iteration: the object taken from the agenda was matched against the node by the test the
         property demands for its kind (exact type / same class / same registration, equal metadata)."""
